@@ -159,7 +159,7 @@ class RandomImproveMultiAsset(UTxOSelector):
             i = next(self.random_generator, None)
             if i is None:
                 raise UTxOSelectionException("Random generator depleted!")
-            elif i > len(utxos):
+            elif i >= len(utxos):
                 raise UTxOSelectionException(f"Random index: {i} out of range!")
         else:
             i = random.randint(0, len(utxos) - 1)
